@@ -347,12 +347,21 @@ def run(ctx):
     from .c12 import r12_5, r12_2
     r12_5(ctx)
     r12_2(ctx)
+    # the reorder buffer, the item queue and the value list of a handle belong to that handle alone
+    from .generic import per_instance_state
+    per_instance_state(ctx, 'R02.7', ['pool'], floor=8)
     ctx.note('equality with a sequential map for all functions and inputs, pickling fidelity and which error a '
              'failed map reports are runtime facts and are not decided')
 
 
 _P = 'billiard/pool.py'
 MUTANTS = [
+    ('reorder-buffer-shared-by-all-iterators', _P,
+     "    _worker_lost = None\n\n    def __init__(self, cache, lost_worker_timeout=LOST_WORKER_TIMEOUT):\n        self._cond = threading.Condition(threading.Lock())\n        self._job = next(job_counter)\n        self._cache = cache\n        self._items = deque()\n        self._index = 0\n        self._length = None\n        self._ready = False\n        self._unsorted = {}\n",
+     "    _worker_lost = None\n    _unsorted = {}\n\n    def __init__(self, cache, lost_worker_timeout=LOST_WORKER_TIMEOUT):\n        self._cond = threading.Condition(threading.Lock())\n        self._job = next(job_counter)\n        self._cache = cache\n        self._items = deque()\n        self._index = 0\n        self._length = None\n        self._ready = False\n", 'R02.7'),
+    ('item-queue-shared-by-all-iterators', _P,
+     "    _worker_lost = None\n\n    def __init__(self, cache, lost_worker_timeout=LOST_WORKER_TIMEOUT):\n        self._cond = threading.Condition(threading.Lock())\n        self._job = next(job_counter)\n        self._cache = cache\n        self._items = deque()\n",
+     "    _worker_lost = None\n    _items = deque()\n\n    def __init__(self, cache, lost_worker_timeout=LOST_WORKER_TIMEOUT):\n        self._cond = threading.Condition(threading.Lock())\n        self._job = next(job_counter)\n        self._cache = cache\n", 'R02.7'),
     ('wake-up-for-a-parked-item', _P, "                self._cond.notify()\n            else:\n                self._unsorted[i] = obj\n",
      "            else:\n                self._unsorted[i] = obj\n            self._cond.notify()\n", 'R02.3'),
     ('wake-up-when-parking', _P, "                self._unsorted[i] = obj\n", "                self._unsorted[i] = obj\n                self._cond.notify()\n", 'R02.3'),
